@@ -1,8 +1,8 @@
 #!/verif/.venv/bin/python
 # Replay of a solver counterexample against the unmodified code (no shims).
-# property=C04 kernel=roundtrip label=abstract:roundtrip_completes
+# property=C04 kernel=param label=legacy:param_roundtrip_completes
 import sys
 sys.path[:0] = ['/repo' + "/pulser-core", '/repo' + "/pulser-simulation", "/verif"]
 from symx.replay import replay
-sys.exit(replay(check='checks.c04', kernel='roundtrip', shape={'program': 'eom_positional', 'codec': 'abstract'},
-                assignment={'buf#1.start': 0, 'buf#1.end': 0, 'buf#2.start': 0, 'buf#2.end': 1, 'buf#5.start': 0, 'buf#5.end': 0, 'buf#6.start': 0, 'buf#6.end': 1, 'buf#7.start': 0, 'buf#7.end': 0, 'buf#8.start': 0, 'buf#8.end': 5, 'buf#9.start': 0, 'buf#9.end': 2, 'buf#10.start': 0, 'buf#10.end': 3, 'buf#11.start': 0, 'buf#11.end': 4, 'buf#12.start': 0, 'buf#12.end': 5}, label='abstract:roundtrip_completes'))
+sys.exit(replay(check='checks.c04', kernel='param', shape={'program': 'vars_strided', 'codec': 'legacy'},
+                assignment={}, label='legacy:param_roundtrip_completes'))
